@@ -38,6 +38,16 @@ THEOREMS = [
     'Nb.C16.lazy_eq_eager_tck',
     'Nb.C16.lazy_eq_eager_trk',
     'Nb.C16.lazy_eq_eager_trk_load',
+    'Nb.C16.trackvis_affine_invertible_exact',
+    'Nb.C16.trk_hdr_size_unambiguous',
+    'Nb.C16.trk_byteorder_roundtrip',
+    'Nb.C16.trk_bad_hdr_size_refused',
+    'Nb.C16.lazy_world_invariant',
+    'Nb.C16.lazy_resave_roundtrip',
+    'Nb.C16.lazy_compose_order_counterexample',
+    'Nb.C16.finally_restores_iff',
+    'Nb.C16.gen_refines_finally_semantics',
+    'Nb.C16.position_restored_src',
 ]
 ASSUMPTIONS = [
     'hand-written Lean model of tck.py/trk.py/orientations.py (Model/C16.lean), tied to the code by the '
@@ -159,9 +169,10 @@ def mk_buf(req, via):
     return mk('buf', f'C16 buf {req}', {'req': req, 'via': via}, ('buf', req, via))
 
 
-def mk_tckw(L, sls):
-    return mk('tckw', f'C16 tckw {L} {enc_sls(sls)}', {'L': L, 'sls': sls},
-              ('tckw', L, enc_sls(sls)) if sls else None)
+def mk_tckw(L, sls, ras=None):
+    """`ras`: affine_to_rasmm (aff12) of the tractogram handed to save — its stored points are inv(ras)·sls"""
+    return mk('tckw', f'C16 tckw {L} {enc_sls(sls)}', {'L': L, 'sls': sls, 'ras': ras},
+              ('tckw', L, enc_sls(sls), tuple(ras or ())) if sls else None)
 
 
 def expected_out(L, count):
@@ -204,16 +215,62 @@ def mk_aff(g):
     return mk('aff', 'C16 aff ' + geom_tokens(g), {'g': g}, ('aff', geom_tokens(g)))
 
 
-def mk_trk(g, items, junk, ins_seed):
+def mk_trk(g, items, junk, ins_seed, ras=None):
     return mk('trk', 'C16 trk %s %s' % (geom_tokens(g), enc_items(items)),
-              {'g': g, 'items': items, 'junk': junk, 'ins': ins_seed},
-              ('trk', geom_tokens(g), enc_items(items)) if items else None)
+              {'g': g, 'items': items, 'junk': junk, 'ins': ins_seed, 'ras': ras},
+              ('trk', geom_tokens(g), enc_items(items), tuple(ras or ())) if items else None)
 
 
 def mk_trkr(ns, np_, announced, junk, start, acts, words):
     return mk('trkr', f'C16 trkr {ns} {np_} {announced} {junk} {start} {acts} {enc_words(words)}',
               {'ns': ns, 'np': np_, 'announced': announced, 'junk': junk, 'start': start, 'acts': acts,
                'words': words}, ('trkr', ns, np_, announced, start, acts, enc_words(words)) if words else None)
+
+
+def hexs(b):
+    return bytes(b).hex() if len(b) else '-'
+
+
+def trkb_bytes(d):
+    """a TRK file in byte order d['e'] ('<' / '>'): default header with the given counts / names /
+    version / hdr_size (optionally stored in the OTHER byte order), then the record words in d['e']"""
+    _, trk, _ = _nib()
+    h = trk.TrkFile._default_structarr('little' if d['e'] == '<' else 'big')
+    h['nb_scalars_per_point'] = d['ns']
+    h['nb_properties_per_streamline'] = d['np']
+    h['nb_streamlines'] = d['announced']
+    h['version'] = d['version']
+    h['hdr_size'] = int(np.array(d['hdr_size'], dtype='u4').astype('i4'))
+    for i, fld in enumerate(d['sf']):
+        h['scalar_name'][i] = bytes(fld)
+    for i, fld in enumerate(d['pf']):
+        h['property_name'][i] = bytes(fld)
+    hb = bytearray(h.tobytes())
+    if d['hs_swapped']:
+        hb[996:1000] = hb[996:1000][::-1]
+    raw = bytes(hb) + np.array(d['words'], dtype=d['e'] + 'u4').tobytes()
+    return raw[:d['cut']] if d['cut'] is not None else raw
+
+
+def mk_trkb(d):
+    d = {k: d[k] for k in ('e', 'ns', 'np', 'announced', 'version', 'hdr_size', 'hs_swapped', 'sf', 'pf', 'words', 'cut', 'valid')}
+    raw = trkb_bytes(d)
+    return mk('trkb', 'C16 trkb ' + hexs(raw), d, ('trkb', repr(sorted(d.items()))))
+
+
+def mk_hdrp(raw):
+    raw = list(raw)
+    return mk('hdrp', 'C16 hdrp ' + hexs(raw), {'raw': raw}, ('hdrp', bytes(raw)))
+
+
+def enc_affops(ops):
+    return ';'.join('w' if o[0] == 'w' else 'a' + ','.join(o[1]) for o in ops) if ops else '-'
+
+
+def mk_lzaff(mode, R, ops, g, sl):
+    line = 'C16 lzaff %s %s %s %s %s' % (mode, ','.join(R) if R else 'none', enc_affops(ops), geom_tokens(g), enc_sl(sl))
+    return mk('lzaff', line, {'mode': mode, 'R': R, 'ops': [list(o) for o in ops], 'g': g, 'sl': sl},
+              ('lzaff', line))
 
 
 def mk_general(d):
@@ -235,7 +292,7 @@ def case_from_data(d):
     if op == 'buf':
         return mk_buf(d['req'], d['via'])
     if op == 'tckw':
-        return mk_tckw(d['L'], d['sls'])
+        return mk_tckw(d['L'], d['sls'], d.get('ras'))
     if op == 'tckf':
         return mk_tckf(d['L'], d['req'], d['sls'])
     if op == 'tckr':
@@ -249,13 +306,23 @@ def case_from_data(d):
     if op == 'aff':
         return mk_aff(d['g'])
     if op == 'trk':
-        return mk_trk(d['g'], [tuple(i) for i in d['items']], d['junk'], d['ins'])
+        return mk_trk(d['g'], [tuple(i) for i in d['items']], d['junk'], d['ins'], d.get('ras'))
     if op == 'trkr':
         return mk_trkr(d['ns'], d['np'], d['announced'], d['junk'], d['start'], d['acts'], d['words'])
     if op == 'general':
         dd = dict(d)
         dd.pop('op')
         return mk_general(dd)
+    if op == 'trkb':
+        return mk_trkb(d)
+    if op == 'hdrp':
+        return mk_hdrp(d['raw'])
+    if op == 'lzaff':
+        return mk_lzaff(d['mode'], d['R'], [tuple(o) for o in d['ops']], d['g'], d['sl'])
+    if op == 'bigtck':
+        dd = dict(d)
+        dd.pop('op')
+        return mk_bigtck(dd)
     raise ValueError(d)
 
 
@@ -348,7 +415,20 @@ def aff12(m):
         ','.join(enc_frac(Fraction(float(m[i, 3]))) for i in range(3))
 
 
-def build_tractogram(items, ins_seed):
+def to_space(sls, ras):
+    """points `sls` (RAS+mm, float32) expressed in the space whose affine_to_rasmm is `ras` (aff12 / None)"""
+    if not ras:
+        return sls, np.eye(4)
+    from nibabel.affines import apply_affine
+    R = aff_matrix(ras)
+    Ri = np.linalg.inv(R)
+    out = [apply_affine(Ri, s_).astype('<f4') if len(s_) else s_ for s_ in sls]
+    for a_, b_ in zip(out, sls):      # the stream must stay exact
+        assert not len(a_) or np.array_equal(apply_affine(R, a_.astype(float)), b_.astype(float)), 'inexact ras space'
+    return out, R
+
+
+def build_tractogram(items, ins_seed, ras=None):
     """real Tractogram from model items; dict insertion order shuffled deterministically"""
     _, _, Tractogram = _nib()
     import random
@@ -368,7 +448,8 @@ def build_tractogram(items, ins_seed):
             key = bytes(n).decode('latin1')
             dps[key] = [np.array(dict((tuple(a), b) for a, b in it[2])[tuple(n)], dtype='<u4').view('<f4')
                         for it in items]
-    return Tractogram(sls, data_per_streamline=dps or None, data_per_point=dpp or None, affine_to_rasmm=np.eye(4))
+    sls, R = to_space(sls, ras)
+    return Tractogram(sls, data_per_streamline=dps or None, data_per_point=dpp or None, affine_to_rasmm=R)
 
 
 def items_of_tractogram(t):
@@ -448,7 +529,8 @@ def impl(case):
         return str(f.sizes[0])
     if op == 'tckw':
         sls = [bits_to_f32([w for t in s for w in t]) for s in d['sls']]
-        t = Tractogram(sls, affine_to_rasmm=np.eye(4))
+        sls, R = to_space(sls, d.get('ras'))
+        t = Tractogram(sls, affine_to_rasmm=R)
         b = io.BytesIO()
         TckFile(t, header=tck_header_for(d['L'])).save(b)
         raw = b.getvalue()
@@ -459,6 +541,8 @@ def impl(case):
         if len(body) % 12:
             return f'{n} {real} ragged'
         data = [int(x) for x in np.frombuffer(body, '<u4')]
+        if d.get('ras'):
+            data = [canon_zero(x) for x in data]
         return f'{n} {real} ' + enc_sl([data[i:i + 3] for i in range(0, len(data), 3)])
     if op == 'tckf':
         sls = [bits_to_f32([w for t in s_ for w in t]) for s_ in d['sls']]
@@ -541,7 +625,7 @@ def impl(case):
         case.extra['a'], case.extra['b'] = a, b
         return aff12(a) + ' ' + aff12(b)
     if op == 'trk':
-        t = build_tractogram(d['items'], d['ins'])
+        t = build_tractogram(d['items'], d['ins'], d.get('ras'))
         junk = junk_bytes(d['junk'])
         b = io.BytesIO()
         b.write(junk)
@@ -594,9 +678,104 @@ def impl(case):
         pass  # CPython closes an unreferenced generator at once (refcount); no gc.collect() needed
         case.extra['final'] = f.tell()
         return out
+    if op == 'trkb':
+        from nibabel.streamlines.header import Field
+        from nibabel.streamlines.tractogram_file import HeaderError
+        raw = trkb_bytes(d)
+        case.extra['raw'] = raw
+        f = io.BytesIO(raw)
+        try:
+            hdr = TrkFile._read_header(f)
+        except HeaderError:
+            return 'ERR:HeaderError'
+        except Exception as e:  # noqa: BLE001
+            return err_token(e)
+        head = 'e=%s ns=%d np=%d n=%d ver=%d sf=%s pf=%s reenc=true' % (
+            hdr[Field.ENDIANNESS], hdr[Field.NB_SCALARS_PER_POINT], hdr[Field.NB_PROPERTIES_PER_STREAMLINE],
+            hdr[Field.NB_STREAMLINES], hdr['version'],
+            ','.join(enc_name(list(bytes(x).rstrip(b'\0'))) for x in hdr['scalar_name']),
+            ','.join(enc_name(list(bytes(x).rstrip(b'\0'))) for x in hdr['property_name']))
+        items, end = [], 'ok'
+        try:
+            for rec in TrkFile._read(f, hdr):
+                items.append(show_rec(rec))
+        except Exception as e:  # noqa: BLE001
+            end = err_token(e)
+        case.extra['final'] = f.tell()
+        return head + ' items=' + (';'.join(items) if items else '-') + ' end=' + end
+    if op == 'hdrp':
+        from nibabel.streamlines.tractogram_file import HeaderError
+        f = io.BytesIO(bytes(d['raw']))
+        f.seek(min(3, len(d['raw'])))
+        try:
+            off = TckFile._read_header(f)['_offset_data']
+        except HeaderError:
+            return 'ERR:HeaderError'
+        except IndexError:
+            return 'ERR:short'
+        except ValueError:
+            return 'ERR:ValueError'
+        case.extra['pos'] = f.tell()
+        return str(off)
+    if op == 'lzaff':
+        return impl_lzaff(case, d)
+    if op == 'bigtck':
+        return 'general'
     if op == 'general':
         return 'general'
     raise ValueError(op)
+
+
+def aff_matrix(a12):
+    a = [Fraction(x) for x in a12]
+    return np.array([[a[0], a[1], a[2], a[9]], [a[3], a[4], a[5], a[10]], [a[6], a[7], a[8], a[11]], [0, 0, 0, 1]], dtype=float)
+
+
+def impl_lzaff(case, d):
+    tck, trk, Tractogram = _nib()
+    from nibabel.streamlines.tractogram import LazyTractogram
+    lazy = d['mode'] == 'l'
+    sl = bits_to_f32([w for t in d['sl'] for w in t])
+    R = aff_matrix(d['R']) if d['R'] else None
+    cur = Tractogram([sl.copy()], affine_to_rasmm=R)
+    toks = []
+    case.extra['states'] = []
+
+    def show(c):
+        return 'P=%s;R=%s' % (aff12(c._affine_to_apply) if lazy else '-',
+                              aff12(c.affine_to_rasmm) if c.affine_to_rasmm is not None else 'none')
+    if lazy and not d['ops']:
+        cur = LazyTractogram.from_tractogram(cur)
+    for o in d['ops']:
+        try:
+            if o[0] == 'w':
+                cur = cur.to_world(lazy=True) if lazy else cur.to_world()
+            else:
+                cur = cur.apply_affine(aff_matrix(o[1]), lazy=True) if lazy else cur.apply_affine(aff_matrix(o[1]))
+        except ValueError:
+            toks.append('ERR:ValueError')
+            return ' '.join(toks)
+        toks.append(show(cur))
+        case.extra['states'].append((np.array(cur._affine_to_apply, dtype=float) if lazy else None,
+                                     None if cur.affine_to_rasmm is None else np.array(cur.affine_to_rasmm, dtype=float),
+                                     [np.asarray(x, dtype=float).copy() for x in cur.streamlines]))
+
+    def bits(a):
+        return [tuple(canon_zero(w) for w in row) for row in f32_to_bits(np.asarray(a))]
+    pts = bits(list(cur.streamlines)[0])
+    toks.append('pts=' + enc_sl(pts))
+    case.extra['resaved'] = {}
+    for name, cls, hdr in (('trk', trk.TrkFile, geom_header(d['g'])), ('tck', tck.TckFile, None)):
+        b = io.BytesIO()
+        try:
+            cls(cur, header=hdr).save(b)
+            back = [bits(s_) for s_ in cls.load(io.BytesIO(b.getvalue())).streamlines]
+            lback = [bits(s_) for s_ in cls.load(io.BytesIO(b.getvalue()), lazy_load=True).streamlines]
+            case.extra['resaved'][name] = (back, lback)
+            toks.append(name + '=' + (enc_sl(back[0]) if len(back) == 1 else 'n%d' % len(back)))
+        except ValueError:
+            toks.append(name + '=ERR:ValueError')
+    return ' '.join(toks)
 
 
 def enc_items_ordered(items):
@@ -882,7 +1061,7 @@ def oracle(case, out):
             import nibabel as nib
             with tempfile.TemporaryDirectory() as tmp:
                 p = os.path.join(tmp, 'a.trk')
-                nib.streamlines.save(build_tractogram(items, d['ins']), p, header=geom_header(d['g']))
+                nib.streamlines.save(build_tractogram(items, d['ins'], d.get('ras')), p, header=geom_header(d['g']))
                 for lazy in (False, True):
                     t = nib.streamlines.load(p, lazy_load=lazy).tractogram
                     if lazy:
@@ -908,13 +1087,16 @@ def oracle(case, out):
             return 'LAZY-ITEMS: item iteration of the lazy tractogram (impl pass) differs from the eager items'
         # re-saving the lazily loaded tractogram (TCK, and TRK with the default header) keeps the RAS+mm coordinates
         if items and d['ins'] % 3 == 0:
-            for cls in (TckFile, TrkFile):
+            import random as _random
+            g2 = rand_geom(_random.Random(d['ins']))
+            for cls, hdr2 in ((TckFile, None), (TrkFile, None), (TrkFile, geom_header(g2))):
                 o = io.BytesIO()
-                cls(lz.tractogram).save(o)
+                cls(lz.tractogram, header=hdr2).save(o)
                 back = cls.load(io.BytesIO(o.getvalue())).streamlines
                 got2 = [[tuple(canon_zero(w) for w in row) for row in f32_to_bits(np.asarray(s_))] for s_ in back]
                 if got2 != [w[0] for w in want]:
-                    return (f'RE-SAVE: lazily loaded TRK tractogram re-saved as {cls.__name__} reloads with different '
+                    return (f'RE-SAVE: lazily loaded TRK tractogram re-saved as {cls.__name__} '
+                            f'({"same default" if hdr2 is None else "different"} header) reloads with different '
                             f'RAS+mm coordinates: {str(got2)[:120]} want {str([w[0] for w in want])[:120]}')
             if f.tell() != junk:
                 return f'TRK re-save of the lazy tractogram left the source file object at {f.tell()}, it was at {junk}'
@@ -928,8 +1110,157 @@ def oracle(case, out):
         if toks and closed and int(toks[-1].rsplit('@', 1)[1]) != d['start']:
             return f'TRK reader: position after the generator ended is not the start {d["start"]} (history {acts}): {toks[-1]}'
         return None
+    if op == 'trkb':
+        if d['cut'] is not None or d['hs_swapped'] or d['hdr_size'] != 1000 or d['version'] not in (1, 2, 3) or not d.get('valid'):
+            return None
+        if not out.startswith('e=%s ' % d['e']):
+            return f'TRK header written in byte order {d["e"]} with hdr_size 1000 is read as: {out[:60]}'
+        if not out.endswith('end=ok'):
+            return f'TRK reader failed on a valid {d["e"]} file: {out[-60:]}'
+        if ex.get('final') != 0:
+            return f'TRK reader left the file object at {ex.get("final")}, it was at 0'
+        # independent decode of the records; public loads of the file in BOTH byte orders must give it
+        ns, np_ = d['ns'], d['np']
+        ws = d['words']
+        if not ws and (ns or np_):
+            # a hand-made header announcing scalars/properties with NO record: `save` never writes this (an empty
+            # tractogram is saved with both counts 0), so it is outside C16; observed: the eager load raises
+            # IndexError (`properties[:, slice_]` on a 1-D empty array) while the lazy load succeeds
+            return None
+        i, ref = 0, []
+        while i < len(ws):
+            m = ws[i]
+            rows = [ws[i + 1 + r * (3 + ns): i + 1 + (r + 1) * (3 + ns)] for r in range(m)]
+            i += 1 + m * (3 + ns)
+            ref.append(([np.array(r_[:3], '<u4').view('<f4').astype(float) - 0.5 for r_ in rows],
+                        [r_[3:] for r_ in rows], ws[i:i + np_]))
+            i += np_
+        for e2 in (d['e'], '<' if d['e'] == '>' else '>'):
+            raw2 = trkb_bytes(dict(d, e=e2))
+            for lazy in (False, True):
+                try:
+                    tf = TrkFile.load(io.BytesIO(raw2), lazy_load=lazy)
+                    sls = [np.asarray(x, dtype=float) for x in tf.streamlines]
+                    tr = tf.tractogram
+                    dpp = {k: [np.asarray(x) for x in tr.data_per_point[k]] for k in tr.data_per_point}
+                    dps = {k: [np.asarray(x) for x in tr.data_per_streamline[k]] for k in tr.data_per_streamline}
+                except Exception as e:  # noqa: BLE001
+                    return f'TRK load (lazy={lazy}) of a valid file in byte order {e2} raised {e!r}'
+                if len(sls) != len(ref):
+                    return f'TRK load (lazy={lazy}, byte order {e2}) returns {len(sls)} streamlines, file holds {len(ref)}'
+                for j, (pts, scal, props) in enumerate(ref):
+                    if sls[j].shape != (len(pts), 3) or not np.array_equal(sls[j], np.array(pts).reshape(-1, 3)):
+                        return f'TRK load (lazy={lazy}, byte order {e2}): streamline {j} = {sls[j].tolist()} want {[list(p_) for p_ in pts]}'
+                    if ns:
+                        got = np.concatenate([np.asarray(dpp[k][j]).reshape(len(pts), -1) for k in dpp], axis=1)
+                        if [words_of(r_) for r_ in got] != [list(r_) for r_ in scal]:
+                            return f'TRK load (lazy={lazy}, byte order {e2}): per-point data of streamline {j} differ'
+                    if np_:
+                        got = np.concatenate([np.asarray(dps[k][j]).ravel() for k in dps])
+                        if words_of(got) != list(props):
+                            return f'TRK load (lazy={lazy}, byte order {e2}): per-streamline data of streamline {j} differ'
+        return None
+    if op == 'hdrp':
+        if not out.startswith('ERR') and ex.get('pos') != min(3, len(d['raw'])):
+            return f'TckFile._read_header moved the file position to {ex.get("pos")}'
+        return None
+    if op == 'lzaff':
+        if d['R'] is None:
+            return None
+        R0 = aff_matrix(d['R'])
+        raw = bits_to_f32([w for t in d['sl'] for w in t]).astype(float)
+        world = raw @ R0[:3, :3].T + R0[:3, 3]
+        for k, (P, R, sls) in enumerate(ex.get('states', [])):
+            if R is None:
+                return f'affine_to_rasmm became None after step {k}'
+            got = sls[0] @ R[:3, :3].T + R[:3, 3]
+            if not np.array_equal(got, world):
+                return (f'after step {k} of {d["ops"]} ({d["mode"]}) affine_to_rasmm·streamlines = {got.tolist()} '
+                        f'but the RAS+mm coordinates were {world.tolist()}')
+            if P is not None and not np.array_equal(R @ P, R0):
+                return f'after step {k}: affine_to_rasmm · _affine_to_apply = {(R @ P).tolist()} != initial affine_to_rasmm'
+        if 'ERR' in out.split(' pts=')[0]:
+            return f'to_world/apply_affine raised although affine_to_rasmm was given: {out[:80]}'
+        wbits = [tuple(canon_zero(w) for w in row) for row in f32_to_bits(world.astype('<f4'))]
+        for name, (back, lback) in ex.get('resaved', {}).items():
+            for lab, b_ in (('eager', back), ('lazy', lback)):
+                if b_ != [wbits]:
+                    return (f'RE-SAVE: tractogram with pending affines ({d["mode"]}, {d["ops"]}) re-saved as {name} '
+                            f'({lab} load) gives {str(b_)[:120]}, RAS+mm coordinates were {wbits}')
+        for name in ('trk', 'tck'):
+            if name + '=ERR' in out:
+                return f'{name} save of a tractogram with a known space raised: {out[-60:]}'
+        return None
+    if op == 'bigtck':
+        return oracle_bigtck(d)
     if op == 'general':
         return oracle_general(d)
+    return None
+
+
+def mk_bigtck(d):
+    return mk('bigtck', None, d, ('bigtck', repr(sorted(d.items()))), 'bigtck')
+
+
+def oracle_bigtck(d):
+    """TCK files LARGER than the default 4 MB read buffer through the public API (path and file object):
+    later buffers start mid-streamline and hold many delimiters; `edge` places a delimiter exactly at /
+    next to the first buffer boundary"""
+    import nibabel as nib
+    tck, trk, Tractogram = _nib()
+    rs = np.random.RandomState(d['seed'])
+    rows_per_buf = (4 * 1048576 + (12 - (4 * 1048576) % 12)) // 12
+    target = int(rows_per_buf * d['bufs']) + d['edge']
+    lens, tot = [], 0
+    while tot < target:
+        m = int(rs.randint(1, d['mmax'] + 1))
+        if tot + m + 1 > target:
+            m = target - tot - 1
+            if m < 1:
+                break
+        lens.append(m)
+        tot += m + 1
+    lens += [int(x) for x in rs.randint(1, d['mmax'] + 1, size=d['extra'])]
+    allpts = (rs.randn(sum(lens), 3) * 40).astype('<f4')
+    cuts = np.cumsum(lens)[:-1]
+    sls = np.split(allpts, cuts)
+    t = Tractogram(sls, affine_to_rasmm=np.eye(4))
+    with tempfile.TemporaryDirectory() as tmp:
+        p = os.path.join(tmp, 'big.tck')
+        nib.streamlines.save(t, p)
+        if os.path.getsize(p) <= 4 * 1048576 * d['bufs'] * 0.99:
+            return 'bigtck generator: file smaller than intended'
+        variants = []
+        for lazy in (False, True):
+            variants.append(('path lazy=%s' % lazy, lambda lazy=lazy: nib.streamlines.load(p, lazy_load=lazy), None))
+        fh = open(p, 'rb')
+        try:
+            fh.seek(5)
+            variants.append(('fileobj eager', lambda: tck.TckFile.load(fh), fh))
+            variants.append(('fileobj lazy', lambda: tck.TckFile.load(fh, lazy_load=True), fh))
+            for label, fn, fobj in variants:
+                try:
+                    tf = fn()
+                    n = 0
+                    off = 0
+                    for got in tf.streamlines:
+                        got = np.asarray(got)
+                        if n >= len(lens):
+                            return f'big TCK ({label}): more streamlines than the {len(lens)} saved'
+                        want = allpts[off:off + lens[n]]
+                        if got.shape != want.shape or not np.array_equal(got.view('<u4'), want.view('<u4')):
+                            return (f'big TCK ({label}): streamline {n} (rows {off}..{off + lens[n]} of the data, '
+                                    f'buffer holds {rows_per_buf} rows) differs from the saved one')
+                        off += lens[n]
+                        n += 1
+                    if n != len(lens):
+                        return f'big TCK ({label}): {n} streamlines loaded, {len(lens)} saved'
+                except Exception as e:  # noqa: BLE001
+                    return f'big TCK ({label}) raised {e!r}'
+                if fobj is not None and fobj.tell() != 5:
+                    return f'big TCK ({label}) left the file object at {fobj.tell()}, it was at 5'
+        finally:
+            fh.close()
     return None
 
 
@@ -1147,6 +1478,57 @@ def digit_boundary_lengths(upto):
     return [L for L in out if L == 51 or L >= 55]
 
 
+def rand_aff12(rng, shear=False):
+    """signed permutation x zoom in {1/2,1,2} (optionally times a unit upper-triangular dyadic shear) + quarter-unit
+    translation, as aff12 strings; exactly invertible in binary floating point"""
+    perm = list(range(3))
+    rng.shuffle(perm)
+    m = [[Fraction(0)] * 3 for _ in range(3)]
+    for j in range(3):
+        m[perm[j]][j] = Fraction(rng.choice([Fraction(1, 2), 1, 2])) * rng.choice([-1, 1])
+    if shear:
+        sh = [[Fraction(1), Fraction(rng.choice([0, 1, -1]), 2), Fraction(0)], [Fraction(0), Fraction(1), Fraction(rng.choice([0, 1]))],
+              [Fraction(0), Fraction(0), Fraction(1)]]
+        m = [[sum(m[i][k] * sh[k][j] for k in range(3)) for j in range(3)] for i in range(3)]
+    tr = [Fraction(rng.randint(-32, 32), 4) for _ in range(3)]
+    return [enc_frac(m[i][j]) for i in range(3) for j in range(3)] + [enc_frac(x) for x in tr]
+
+
+HDR_LINES = [b'p: xxx', b'  spaced key :  value  ', b'continuation line', b'', b'   ', b'a:b:c', b': v', b'key:', b'END ', b'\tEND',
+             b'ENDX', b'end', b'file: . 77', b'file: x 12', b'file: .', b'file: . 12a', b'file:', b'file : . 5', b' file: . 0060 trailing',
+             b'FILE: . 9', b'datatype: Float32LE', b'count: 0000000001', b'q:\x0b. 9\x0c', b'p:\x1c1\x1f', b'file: .\t31', b'roi: 1 2 3',
+             b'file', b'file . 3']
+
+
+def rand_tck_header_bytes(rng, i):
+    """header texts for the TCK header parser: the writer's shape plus adversarial lines (early END, earlier /
+    repeated `file` entries, continuation lines, odd white space, missing END, wrong magic)"""
+    lines = [b'count: 0000000002', b'datatype: Float32LE']
+    if i % 17 == 0:
+        lines = []
+    for _ in range(rng.choice([0, 0, 1, 2, 3, 5])):
+        lines.insert(rng.randint(0, len(lines)), rng.choice(HDR_LINES))
+    body = b'\n'.join(lines)
+    magic = b'mrtrix tracks' if i % 23 else rng.choice([b'mrtrix track', b'Mrtrix tracks', b''])
+    head = magic + (b'\n' if i % 29 else b'X') + body
+    n = len(head) + 14 + len(str(len(head) + 14 + len(str(len(head) + 14))))
+    r = i % 13
+    if r == 0:
+        tail = b'\nfile: . %d' % n                      # no END
+    elif r == 1:
+        tail = b'\nEND\n'                               # no file entry: the reader guesses
+    elif r == 2:
+        tail = b'\nEND'                                 # no file entry, END is the last line without newline
+    elif r == 3:
+        tail = b'\nfile: . %d\nEND' % n
+    elif r == 4:
+        tail = b'\nfile: . %d\n\n  END  \nfile: . 3\n' % n
+    else:
+        tail = b'\nfile: . %d\nEND\n' % n
+    data = rng.choice([b'', b'\x00' * 12, b'\nEND\nfile: . 1\n', b'abc\ndef'])
+    return head + tail + data
+
+
 ACTS = ['n', 'c', 'nc', 'nn', 'nnc', 'ncn', 'nnnc', 'cn', 'nnnnnnnnnnnn', 'nnnnnnnnnnnnnnnnnnnnnnnnc', 'ncc']
 
 
@@ -1197,7 +1579,7 @@ def cases(rng, tier):
     bl = digit_boundary_lengths(10 ** 4)
     for i in range({'quick': 500, 'thorough': 6000, 'search': 1000}[tier]):
         L = rng.choice(bl) if i % 2 else rng.choice([51, 55, 56, 70, 90, 300])
-        out.append(mk_tckw(L, rand_sls(rng, 4, 5)))
+        out.append(mk_tckw(L, rand_sls(rng, 4, 5), rand_aff12(rng) if i % 3 == 0 else None))
     out.append(mk_tckw(51, []))
     # ---- TCK file at byte level (whole file bytes compared with the model's, then read back)
     for i in range({'quick': 300, 'thorough': 4000, 'search': 600}[tier]):
@@ -1258,7 +1640,8 @@ def cases(rng, tier):
         g = rand_geom(rng, simple=(i % 10 == 0))
         if i < 48:
             g['order'] = ORDERS[i]
-        out.append(mk_trk(g, rand_items(rng, 4, 4, 3), rng.choice([0, 0, 7, 1000, 4099]), rng.randrange(1 << 16)))
+        out.append(mk_trk(g, rand_items(rng, 4, 4, 3), rng.choice([0, 0, 7, 1000, 4099]), rng.randrange(1 << 16),
+                          rand_aff12(rng) if i % 3 == 1 else None))
     # ---- TRK record reader, histories, positions, count mismatches
     for i in range({'quick': 3000, 'thorough': 40000, 'search': 6000}[tier]):
         ns, np_ = rng.choice([0, 0, 1, 2]), rng.choice([0, 0, 1, 3])
@@ -1275,6 +1658,78 @@ def cases(rng, tier):
         start = rng.choice([junk, junk, 0, flen, rng.randrange(0, flen + 1)])
         acts = rng.choice(ACTS) if i % 2 else 'n' * (len(recs) + 2)
         out.append(mk_trkr(ns, np_, announced, junk, start, acts, words))
+    # ---- TCK chunked reader: data much larger than the buffer, buffers of >= 2 points that start
+    #      mid-streamline and hold >= 2 delimiters (many short streamlines)
+    for i in range({'quick': 1200, 'thorough': 15000, 'search': 2000}[tier]):
+        nan, inf = tck_nan(), tck_inf()
+        data = []
+        for _ in range(rng.randint(5, 16)):
+            data.extend(rand_point(rng) for _ in range(rng.randint(1, 3) if rng.random() < 0.85 else rng.randint(6, 14)))
+            data.append([nan] * 3)
+        data.append([inf] * 3)
+        if i % 9 == 0:
+            data.pop()
+        req = rng.choice([13, 24, 30, 40, 47, 50, 60, 80, 96, 110])
+        off = rng.choice([90, 100, 1000])
+        flen = off + 12 * len(data)
+        start = rng.choice([0, 0, 5, off, flen, rng.randrange(0, flen + 1)])
+        acts = rng.choice(ACTS) if i % 3 == 0 else 'n' * (len(data) + 2)
+        out.append(mk_tckr(off, req, 0, start, acts, data))
+    # ---- TRK files in BOTH byte orders (hdr_size decides), versions, bad hdr_size, cuts
+    for i in range({'quick': 500, 'thorough': 6000, 'search': 900}[tier]):
+        ns, np_ = rng.choice([0, 0, 1, 2, 3]), rng.choice([0, 0, 1, 2])
+        recs = []
+        for _ in range(rng.randint(0, 3)):
+            m = rng.randint(1, 3)
+            rc = [m]
+            for _ in range(m):
+                rc += rand_point(rng) + [rand_word(rng) for _ in range(ns)]
+            rc += [qbits(rng.randint(-99, 99)) for _ in range(np_)]
+            recs.append(rc)
+        words = [w for rc in recs for w in rc]
+        sf, pf = [], []
+        if ns and rng.random() < 0.5:
+            sf = [[97], [98, 99]][:ns] if ns <= 2 and rng.random() < 0.5 else [[120, 0] + [ord(c) for c in str(ns)]] if ns > 1 else [[113]]
+        if np_ and rng.random() < 0.5:
+            pf = [[109]] if np_ == 1 else [[109, 0, 50]]
+        d = {'e': rng.choice('<>'), 'ns': ns, 'np': np_, 'announced': rng.choice([len(recs), len(recs), 0]),
+             'version': 2, 'hdr_size': 1000, 'hs_swapped': False, 'sf': sf, 'pf': pf, 'words': words, 'cut': None,
+             'valid': True}
+        r = i % 10
+        if r == 0:
+            d.update(version=rng.choice([1, 3, 0, 4, 33554432]), valid=False)
+            d['valid'] = d['version'] in (1, 3)
+        elif r == 1:
+            d.update(hdr_size=rng.choice([0, 999, 1001, 3892510720, 1000 * 256]), valid=False)
+        elif r == 2:
+            d.update(hs_swapped=True, valid=False)
+        elif r == 3:
+            d.update(announced=rng.choice([len(recs) + 1, max(0, len(recs) - 1)]), valid=False)
+        elif r == 4 and words:
+            d.update(cut=1000 + 4 * rng.randrange(len(words)), valid=False)
+        elif r == 5:
+            d.update(cut=rng.choice([0, 6, 500, 996, 999]), valid=False)
+        out.append(mk_trkb(d))
+    # ---- TCK header PARSER (line-oriented) on adversarial header texts
+    for i in range({'quick': 600, 'thorough': 8000, 'search': 1000}[tier]):
+        out.append(mk_hdrp(rand_tck_header_bytes(rng, i)))
+    # ---- pending affines: histories of apply_affine / to_world on Tractogram (eager) and LazyTractogram,
+    #      affine_to_rasmm != identity (or unknown), then re-saved under a DIFFERENT TRK header and as TCK
+    for i in range({'quick': 600, 'thorough': 8000, 'search': 1000}[tier]):
+        R = rand_aff12(rng) if i % 12 else None
+        ops = []
+        for _ in range(rng.choice([0, 1, 1, 2, 2, 3])):
+            ops.append(('w',) if rng.random() < 0.3 else ('a', rand_aff12(rng, shear=(rng.random() < 0.2))))
+        sl = [rand_point(rng, 8) for _ in range(rng.randint(1, 3))]
+        out.append(mk_lzaff('l' if i % 3 else 'e', R, ops, rand_geom(rng, simple=(i % 7 == 0)), sl))
+    # ---- TCK files larger than the 4 MB buffer through the public API (oracle only)
+    if tier == 'quick':
+        out.append(mk_bigtck({'seed': rng.randrange(1 << 30), 'bufs': 1, 'edge': rng.choice([-1, 0, 1]), 'mmax': 300, 'extra': 40}))
+    else:
+        for edge in (-1, 0, 1, 7):
+            out.append(mk_bigtck({'seed': rng.randrange(1 << 30), 'bufs': 1, 'edge': edge, 'mmax': rng.choice([3, 40, 300]), 'extra': 500}))
+        out.append(mk_bigtck({'seed': rng.randrange(1 << 30), 'bufs': 2, 'edge': 0, 'mmax': 200, 'extra': 100}))
+        out.append(mk_bigtck({'seed': rng.randrange(1 << 30), 'bufs': 2.5, 'edge': 3, 'mmax': 5, 'extra': 100}))
     # ---- general floating-point stream (oracle only)
     for i in range({'quick': 400, 'thorough': 6000, 'search': 1000}[tier]):
         out.append(mk_general({'seed': rng.randrange(1 << 30), 'fmt': 'tck' if i % 2 else 'trk', 'n': rng.randint(0, 5),
